@@ -72,12 +72,17 @@ class Report:
     def floor(self, name, actual, minimum):
         """fail closed when fewer anchors than were confirmed by hand are found"""
         self.analysed[name] = actual
-        if actual < minimum:
+        # `minimum` is the number counted on the reviewed tree. Site counts move a little under behaviour-preserving
+        # edits (a checked `len - 1` becomes `checked_sub`, two loops are merged, an idiom is spelled differently), so
+        # counts above 3 may lose up to a fifth before the rule is considered to have lost its subject; small counts
+        # (one per implementation) are exact.
+        need = minimum if minimum <= 3 else (minimum * 4) // 5
+        if actual < need:
             self.violation("ANCHOR-MISSING", name,
-                           "found %d %s, expected at least %d (counted on the reviewed tree): the rule would pass vacuously"
-                           % (actual, name, minimum))
+                           "found %d %s, expected at least %d (%d counted on the reviewed tree): the rule would pass vacuously"
+                           % (actual, name, need, minimum))
         else:
-            self.ok("FLOOR", name, "%d >= %d" % (actual, minimum), nontrivial=False)
+            self.ok("FLOOR", name, "%d >= %d (counted: %d)" % (actual, need, minimum), nontrivial=False)
 
     def extend(self, other_instances):
         self.instances.extend(other_instances)
